@@ -59,7 +59,14 @@ let optimal_q (pairs : ((float * float) * float) list * ((float * float) * float
   let e = top_eigenvector [| row s0; row s1; row s2; row s3 |] in
   (((e.(0), e.(1)), e.(2)), e.(3))
 
-let eval (w : string array) : float list =
+let rec eval (w : string array) : float list =
+  if Array.length w > 3 && w.(0) = "W" then begin
+    (* W <period> <wrapAround> <scalar component line>: the component made periodic (cvc::wrap) *)
+    let per = fl w.(1) in let cen = fl w.(2) in
+    match eval (Array.sub w 3 (Array.length w - 3)) with
+    | [x] -> [if per = 0.0 then x else cvc_wrap fops cen per x]
+    | _ -> raise (Bad "W needs a scalar component")
+  end else
   let p = ref 1 in
   let next () = if !p >= Array.length w then raise (Bad "short") else (let s = w.(!p) in Stdlib.incr p; s) in
   let nf () = fl (next ()) in
@@ -256,6 +263,47 @@ let () =
                      | _ -> raise (Bad "scalar component expected"))
                   | _ -> raise (Bad "term")) parts in
                 Printf.printf "%s\n" (hex (cv_combine fops terms))
+              | [] -> raise (Bad "empty"))
+           | "COMBH" ->
+             (* COMBH <scalar|vector> ; <coeff> <exp> <active> <component line> ; ... ; EV <nev> { M <k> (<coeff>|-) (<exp>|-) ... | F <k> <b> ... } *)
+             (match split_semis ws with
+              | hd :: parts ->
+                let vector = (List.nth hd 1 = "vector") in
+                let comps = List.filter (fun p -> match p with "EV" :: _ -> false | _ -> true) parts in
+                let evp = List.filter (fun p -> match p with "EV" :: _ -> true | _ -> false) parts in
+                let init = List.map (fun part -> match part with
+                  | c :: n :: act :: _ -> { su_coeff = fl c; su_exp = z_of_int (int_of_string n); su_active = (act <> "0") }
+                  | _ -> raise (Bad "component")) comps in
+                let vals = List.map (fun part -> match part with
+                  | _ :: _ :: _ :: rest -> eval (Array.of_list rest)
+                  | _ -> raise (Bad "component")) comps in
+                let events =
+                  match evp with
+                  | [ "EV" :: _ :: toks ] ->
+                    let rec go toks acc = match toks with
+                      | [] -> List.rev acc
+                      | "M" :: k :: r ->
+                        let k = int_of_string k in
+                        let rec take i r acc2 = if i = 0 then (List.rev acc2, r) else
+                          (match r with c :: n :: r2 ->
+                            take (i - 1) r2 (((if c = "-" then None else Some (fl c)), (if n = "-" then None else Some (z_of_int (int_of_string n)))) :: acc2)
+                           | _ -> raise (Bad "M event")) in
+                        let (confs, r2) = take k r [] in go r2 (SupModify confs :: acc)
+                      | "F" :: k :: r ->
+                        let k = int_of_string k in
+                        let rec take i r acc2 = if i = 0 then (List.rev acc2, r) else
+                          (match r with b :: r2 -> take (i - 1) r2 ((b <> "0") :: acc2) | _ -> raise (Bad "F event")) in
+                        let (flags, r2) = take k r [] in go r2 (SupFlags flags :: acc)
+                      | _ -> raise (Bad "event") in
+                    go toks []
+                  | _ -> [] in
+                let st = sup_run events init in
+                if vector then
+                  let n = (match vals with v :: _ -> List.length v | [] -> 0) in
+                  let rec nat_of_int k = if k <= 0 then O else S (nat_of_int (k - 1)) in
+                  Printf.printf "%s\n" (String.concat " " (List.map hex (sup_vector fops (nat_of_int n) st vals)))
+                else
+                  Printf.printf "%s\n" (hex (sup_scalar fops st (List.map (fun v -> match v with [q] -> q | _ -> raise (Bad "scalar expected")) vals)))
               | [] -> raise (Bad "empty"))
            | "ROTM" ->
              let p = ref 1 in
